@@ -1,2 +1,2 @@
 SPECIFICATION TSpec
-INVARIANTS Sound Complete CookieBinding AuthenticOnly RDirectionsDistinct
+INVARIANTS Sound Complete CookieBinding AuthenticOnly RejectedInert RDirectionsDistinct
